@@ -4,7 +4,9 @@
    Proved over the big-step semantics Cpp/Exec.v; unbounded in the size and nesting of the expression, the
    number of collections and the size of the event. *)
 From FV Require Import Base.Prelude Cpp.IR Cpp.Exec Model.Lowering Proofs.LoweringProofs Model.FragTranslate.
-From FV Require Import Model.TreeSchema Proofs.TreeSchemaProofs.
+From FV Require Model.TreeSchema Proofs.TreeSchemaProofs.
+Notation last_digit := TreeSchemaProofs.last_digit.
+Notation name_index_split := TreeSchemaProofs.name_index_split.
 From Coq Require Import QArith Lia.
 Close Scope Q_scope.
 
@@ -655,7 +657,7 @@ Proof.
   pose proof (nm_first b i F) as H. rewrite <- E in H. discriminate H.
 Qed.
 
-Theorem frag_correct (bk : FragTranslate.backend) (e : ex) (n0 : nat) (ev : event) (ms : frame) (old : value) :
+Theorem frag_correct (bk : backend) (e : ex) (n0 : nat) (ev : event) (ms : frame) (old : value) :
   bases_ok e = true ->
   frame_get (col_name (n0 + size e)) ms = Some (ex_type e, old) ->
   match de ev e with
@@ -704,4 +706,650 @@ Proof.
     + change (agg_step ev "int" ACount (VInt a) v) with (ROk (VInt (a + 1))). cbn [rbind].
       rewrite (IH _ Hr). do 2 f_equal. lia.
     + rewrite (IH _ Hr). reflexivity.
+Qed.
+
+(* ================================================================================================ *)
+(* rows: several columns, vector columns                                                            *)
+(* ================================================================================================ *)
+Definition mget (x : string) (st : state) : option (string * value) := frame_get x (members st).
+Definition updm (x : string) (v : value) (st : state) : state :=
+  match frame_set x v (members st) with
+  | Some m => {| frames := frames st; members := m; rows := rows st |}
+  | None => st
+  end.
+
+Lemma assign_updm (x : string) (v : value) (st : state) (t : string) (old : value) :
+  fget x st = None -> mget x st = Some (t, old) ->
+  assign x v st = Some (updm x v st) /\ lookup x st = Some (t, old) /\
+  mget x (updm x v st) = Some (t, v) /\
+  (forall y, String.eqb y x = false -> mget y (updm x v st) = mget y st) /\
+  frames (updm x v st) = frames st /\ rows (updm x v st) = rows st.
+Proof.
+  unfold fget, mget, assign, updm, lookup. intros Hf Hm.
+  rewrite (frames_set_None x v _ Hf), Hf.
+  destruct (frame_set_spec x v (members st) t old Hm) as (m' & Hs & Hg & Ho). rewrite Hs. cbn.
+  repeat split; auto.
+Qed.
+
+Lemma fget_updm (y x : string) (v : value) (st : state) : fget y (updm x v st) = fget y st.
+Proof. unfold fget, updm. destruct (frame_set x v (members st)); reflexivity. Qed.
+Lemma mget_upd (y x : string) (v : value) (st : state) : mget y (upd x v st) = mget y st.
+Proof. unfold mget, upd. destruct (frames_set x v (frames st)); reflexivity. Qed.
+Lemma mget_enter (y : string) (pre : frame) (st : state) : mget y (enter pre st) = mget y st.
+Proof. reflexivity. Qed.
+Lemma updm_enter (x : string) (v : value) (pre : frame) (st : state) : updm x v (enter pre st) = enter pre (updm x v st).
+Proof. unfold updm, enter. cbn [members]. destruct (frame_set x v (members st)); reflexivity. Qed.
+
+Lemma frame_set_twice (x : string) (v w : value) (f f1 : frame) :
+  frame_set x v f = Some f1 -> frame_set x w f1 = frame_set x w f.
+Proof.
+  revert f1. induction f as [|[y [ty u]] q IH]; cbn [frame_set]; intros f1 E; [discriminate|].
+  destruct (String.eqb x y) eqn:Exy.
+  - inversion E; subst. cbn [frame_set]. rewrite Exy. reflexivity.
+  - destruct (frame_set x v q) as [q1|] eqn:Eq; [|discriminate]. inversion E; subst. cbn [frame_set]. rewrite Exy.
+    rewrite (IH q1 eq_refl). reflexivity.
+Qed.
+
+Lemma updm_updm (x : string) (v w : value) (st : state) (t : string) (old : value) :
+  mget x st = Some (t, old) -> updm x w (updm x v st) = updm x w st.
+Proof.
+  unfold mget, updm. intro H.
+  destruct (frame_set_spec x v (members st) t old H) as (m1 & Hs1 & _). rewrite Hs1. cbn [members frames rows].
+  rewrite (frame_set_twice x v w _ _ Hs1).
+  destruct (frame_set_spec x w (members st) t old H) as (m2 & Hs2 & _). rewrite Hs2. reflexivity.
+Qed.
+
+Lemma updm_same (x : string) (v : value) (st : state) (t : string) : mget x st = Some (t, v) -> updm x v st = st.
+Proof.
+  unfold mget, updm. intro H.
+  assert (B : frame_set x v (members st) = Some (members st)).
+  { revert H. induction (members st) as [|[y [ty u]] q IHf]; cbn [frame_get frame_set]; intro H; [discriminate|].
+    destruct (String.eqb x y) eqn:Exy; [inversion H; subst; reflexivity|]. rewrite (IHf H). reflexivity. }
+  rewrite B. destruct st; reflexivity.
+Qed.
+
+(* pa_type is int or double *)
+Lemma pa_type_cases (a : pa) : pa_type a = "int" \/ pa_type a = "double".
+Proof.
+  induction a; cbn [pa_type]; auto.
+  destruct (String.eqb (pa_type a1) "int" && String.eqb (pa_type a2) "int"); auto.
+Qed.
+Lemma vec_elem_type (a : pa) : vector_elem_type (vec_type (pa_type a)) = pa_type a.
+Proof. destruct (pa_type_cases a) as [E|E]; rewrite E; reflexivity. Qed.
+Lemma vec_is_vector (a : pa) : is_vector_type (vec_type (pa_type a)) = true.
+Proof. destruct (pa_type_cases a) as [E|E]; rewrite E; reflexivity. Qed.
+
+(* ---------- one vector column ---------- *)
+Lemma exec_push (brs : list branch) (ev : event) (iv : string) (ar : bool) (mem t : string) (body : pa)
+      (s : state) (acc : list value) (v : value) :
+  fget mem s = None -> mget mem s = Some (vec_type (pa_type body), VVec acc) -> lookup iv s = Some (t, v) ->
+  nstuck (dpa ev v body) ->
+  exec_stmt brs ev (SPush mem None (tpa iv ar body)) s =
+  match dpa ev v body with
+  | ROk x => ROk (updm mem (VVec (acc ++ [conv (pa_type body) x])) s)
+  | RFault f => RFault f
+  | RStuck k => RStuck k
+  end.
+Proof.
+  intros Hf Hm Hl Hn. cbn [exec_stmt]. rewrite (eval_tpa ev s iv ar t v body Hl Hn).
+  destruct (dpa ev v body) as [x|f|k]; cbn [rbind]; try reflexivity.
+  destruct (assign_updm mem (VVec (acc ++ [conv (pa_type body) x])) s _ _ Hf Hm) as (Ha & Hlk & _).
+  rewrite Hlk. rewrite vec_elem_type. rewrite Ha. reflexivity.
+Qed.
+
+Lemma nest_push (brs : list branch) (ev : event) (iv : string) (ar : bool) (mem t : string) (body : pa) (v : value) (ps : list pred) :
+  forall (s : state) (acc : list value),
+  lookup iv s = Some (t, v) -> fget mem s = None ->
+  mget mem s = Some (vec_type (pa_type body), VVec acc) ->
+  nstuck (rbind (passes ev v ps) (fun b => if b then dpa ev v body else ROk VNull)) ->
+  nest_run ev (exec_stmt brs ev (SPush mem None (tpa iv ar body))) (map (tpred iv ar) ps) s =
+  match passes ev v ps with
+  | ROk true => match dpa ev v body with
+                | ROk x => ROk (updm mem (VVec (acc ++ [conv (pa_type body) x])) s)
+                | RFault f => RFault f | RStuck k => RStuck k end
+  | ROk false => ROk s
+  | RFault f => RFault f
+  | RStuck k => RStuck k
+  end.
+Proof.
+  induction ps as [|p r IH]; intros s acc Hl Hf Hm Hn; cbn [map nest_run passes] in *.
+  - cbn [rbind] in Hn. apply (exec_push brs ev iv ar mem t body s acc v Hf Hm Hl Hn).
+  - rewrite dpred_dpredv in *.
+    pose proof (nstuck_bind_l _ _ (nstuck_bind_l _ _ (nstuck_bind_l _ _ Hn))) as Hv.
+    rewrite (eval_tpred ev s iv ar t v p Hl Hv).
+    destruct (dpredv ev v p) as [w|f|k]; cbn [rbind] in *; [|reflexivity|destruct Hv].
+    destruct (truth w) as [b|f|k]; cbn [rbind] in *; [|reflexivity|destruct Hn].
+    destruct b; [|reflexivity].
+    rewrite (IH (enter [] s) acc); [| exact Hl | rewrite fget_enter; [exact Hf|reflexivity] | exact Hm | exact Hn].
+    destruct (passes ev v r) as [[|]|f|k]; cbn [rbind] in *; try reflexivity.
+    + destruct (dpa ev v body) as [x|f|k]; cbn [rbind]; try reflexivity.
+      rewrite updm_enter, pop_enter. reflexivity.
+    + rewrite pop_enter. reflexivity.
+Qed.
+
+Lemma loop_push (brs : list branch) (ev : event) (iv : string) (ar : bool) (mem : string) (body : pa) (ps : list pred) (l : list value) :
+  forall (st : state) (acc : list value),
+  fget mem st = None -> String.eqb mem iv = false ->
+  mget mem st = Some (vec_type (pa_type body), VVec acc) ->
+  nstuck (vec_loop ev (pa_type body) body ps l acc) ->
+  for_loop brs ev iv (Blk [] (one_stmt (fi_guards (map (tpred iv ar) ps) (SPush mem None (tpa iv ar body))))) l st =
+  match vec_loop ev (pa_type body) body ps l acc with
+  | ROk vs => ROk (updm mem (VVec vs) st)
+  | RFault f => RFault f
+  | RStuck k => RStuck k
+  end.
+Proof.
+  induction l as [|v r IH]; intros st acc Hf Hne Hm Hn.
+  - cbn [vec_loop]. rewrite for_loop_nil. rewrite (updm_same mem _ st _ Hm). reflexivity.
+  - cbn [vec_loop] in *. rewrite for_loop_cons, exec_block_eq. cbn [run_decls rbind].
+    rewrite exec_one, guards_exec.
+    assert (Hl : lookup iv (enter [(iv, ("auto", v))] st) = Some ("auto", v)).
+    { unfold lookup, enter. cbn. rewrite String.eqb_refl. reflexivity. }
+    assert (Hf' : fget mem (enter [(iv, ("auto", v))] st) = None).
+    { rewrite fget_enter; [exact Hf|]. cbn. rewrite Hne. reflexivity. }
+    assert (Hn' : nstuck (rbind (passes ev v ps) (fun b => if b then dpa ev v body else ROk VNull))).
+    { destruct (passes ev v ps) as [[|]|f|k]; cbn [rbind] in *; [exact (nstuck_bind_l _ _ Hn)|exact I|exact I|exact Hn]. }
+    rewrite (nest_push brs ev iv ar mem "auto" body v ps _ acc Hl Hf' Hm Hn').
+    destruct (passes ev v ps) as [b|f|k]; cbn [rbind] in *; [|reflexivity|destruct Hn].
+    destruct b; cbn [rbind].
+    + destruct (dpa ev v body) as [x|f|k] eqn:Ex; cbn [rbind] in *; [|reflexivity|destruct Hn].
+      rewrite updm_enter, pop_enter.
+      destruct (assign_updm mem (VVec (acc ++ [conv (pa_type body) x])) st _ _ Hf Hm) as (_ & _ & Hm1 & _).
+      rewrite (IH _ _ (eq_trans (fget_updm _ _ _ _) Hf) Hne Hm1 Hn).
+      destruct (vec_loop ev (pa_type body) body ps r (acc ++ [conv (pa_type body) x])) as [vs|f|k]; try reflexivity.
+      rewrite (updm_updm mem _ _ st _ _ Hm). reflexivity.
+    + rewrite pop_enter. apply (IH st acc Hf Hne Hm Hn).
+Qed.
+
+(* ---------- columns and rows, component-wise ---------- *)
+Lemma ex_size_size (e : ex) : ex_size e = size e.
+Proof. induction e; cbn; auto. Qed.
+
+Definition vec_stmts (idiom : string) (cr : collref) (ps : list pred) (body : pa) (mem : string) (n : nat) : stmts :=
+  SCons (SFetch idiom (vcv_name cr n) (c_ctype cr) (c_bank cr) (fetch_lines idiom (c_ctype cr) (c_bank cr)))
+        (one_stmt (tvec_loop cr ps body mem n)).
+Definition cds (c : column) (n : nat) : list decl :=
+  match c with ColScalar e => tds e n | ColVec cr _ _ => [{| d_type := c_ctype cr; d_name := vcv_name cr n; d_init := None |}] end.
+Definition css (idiom : string) (c : column) (mem : string) (n : nat) : stmts :=
+  match c with ColScalar e => tss idiom e n | ColVec cr ps body => vec_stmts idiom cr ps body mem n end.
+Lemma tcol_split (idiom : string) (c : column) (mem : string) (n : nat) :
+  tcol idiom c mem n = (cds c n, css idiom c mem n, n + col_size c).
+Proof.
+  destruct c as [e|cr ps body]; cbn [tcol cds css col_size].
+  - rewrite (te_split idiom e n). rewrite (ex_size_size e). reflexivity.
+  - unfold vec_stmts. replace (n + 2) with (S (S n)) by lia. reflexivity.
+Qed.
+Fixpoint rds (r : row) (n : nat) : list decl :=
+  match r with [] => [] | (_, c) :: t => cds c n ++ rds t (n + col_size c) end.
+Fixpoint rss (idiom : string) (r : row) (nf k n : nat) : stmts :=
+  match r with
+  | [] => SNil
+  | (name, c) :: t => app_stmts (css idiom c (mem_name name (nf + k)) n) (rss idiom t nf (S k) (n + col_size c))
+  end.
+Lemma trow_split (idiom : string) (r : row) : forall nf k n, trow idiom r nf k n = (rds r n, rss idiom r nf k n).
+Proof.
+  induction r as [|[name c] t IH]; intros nf k n; cbn [trow rds rss]; [reflexivity|].
+  rewrite tcol_split, IH. reflexivity.
+Qed.
+Fixpoint rsets (r : row) (nf k n : nat) : stmts :=
+  match r with
+  | [] => SNil
+  | (name, c) :: t =>
+      match c with
+      | ColScalar e => SCons (SSet (mem_name name (nf + k)) None (tc e n)) (rsets t nf (S k) (n + col_size c))
+      | ColVec _ _ _ => rsets t nf (S k) (n + col_size c)
+      end
+  end.
+Lemma trow_sets_split (idiom : string) (r : row) : forall nf k n, trow_sets idiom r nf k n = rsets r nf k n.
+Proof.
+  induction r as [|[name c] t IH]; intros nf k n; cbn [trow_sets rsets]; [reflexivity|].
+  destruct c as [e|cr ps body]; cbn [col_size].
+  - rewrite (te_split idiom e n), IH. rewrite (ex_size_size e). reflexivity.
+  - replace (n + 2) with (S (S n)) by lia. apply IH.
+Qed.
+
+Definition cvars (c : column) (n : nat) : list string :=
+  match c with ColScalar e => vars e n | ColVec cr _ _ => [vcv_name cr n] end.
+Fixpoint rvars (r : row) (n : nat) : list string :=
+  match r with [] => [] | (_, c) :: t => cvars c n ++ rvars t (n + col_size c) end.
+Fixpoint rmems (r : row) (nf k : nat) : list string :=
+  match r with [] => [] | (name, _) :: t => mem_name name (nf + k) :: rmems t nf (S k) end.
+Definition col_bases_ok (c : column) : bool :=
+  match c with ColScalar e => bases_ok e | ColVec cr _ _ => base_ok (c_base cr) end.
+Fixpoint row_bases_ok (r : row) : bool :=
+  match r with [] => true | (_, c) :: t => col_bases_ok c && row_bases_ok t end.
+
+Lemma cvars_shape (c : column) (n : nat) (x : string) : col_bases_ok c = true -> In x (cvars c n) ->
+  exists b i, x = nm b i /\ last_digit b = false /\ first_not_underscore b = true /\ n <= i < n + col_size c.
+Proof.
+  destruct c as [e|cr ps body]; cbn [col_bases_ok cvars col_size]; intros Hb Hin.
+  - rewrite ex_size_size. apply vars_shape; assumption.
+  - destruct Hin as [<-|[]]. unfold base_ok in Hb. apply andb_prop in Hb as [H1 H2]. apply negb_true_iff in H1.
+    exists (c_base cr), n. repeat split; auto; lia.
+Qed.
+Lemma rvars_shape (r : row) : forall n x, row_bases_ok r = true -> In x (rvars r n) ->
+  exists b i, x = nm b i /\ last_digit b = false /\ first_not_underscore b = true /\ n <= i < n + row_size r.
+Proof.
+  induction r as [|[name c] t IH]; intros n x Hb Hin; cbn [rvars row_size row_bases_ok] in *; [destruct Hin|].
+  apply andb_prop in Hb as [Hc Ht]. apply in_app_or in Hin as [Hin|Hin].
+  - destruct (cvars_shape c n x Hc Hin) as (b & i & E & L & F & R). exists b, i. repeat split; auto; lia.
+  - destruct (IH _ x Ht Hin) as (b & i & E & L & F & R). exists b, i. repeat split; auto; lia.
+Qed.
+Lemma cvars_rvars_disjoint (c : column) (t : row) (n : nat) (x : string) :
+  col_bases_ok c = true -> row_bases_ok t = true -> In x (cvars c n) -> In x (rvars t (n + col_size c)) -> False.
+Proof.
+  intros Hc Ht H1 H2.
+  destruct (cvars_shape c n x Hc H1) as (b1 & i & E1 & L1 & _ & R1).
+  destruct (rvars_shape t _ x Ht H2) as (b2 & j & E2 & L2 & _ & R2).
+  subst x. apply (nm_inj b1 b2 i j L1 L2) in E2. lia.
+Qed.
+
+(* member names start with an underscore, generated local names do not *)
+Lemma mem_not_shape (name : string) (idx : nat) (b : string) (i : nat) :
+  first_not_underscore b = true -> mem_name name idx <> nm b i.
+Proof.
+  intros F E. pose proof (nm_first b i F) as H. rewrite <- E in H. discriminate H.
+Qed.
+Lemma mem_neq_iv (name : string) (idx n : nat) : String.eqb (mem_name name idx) (iv_name n) = false.
+Proof.
+  destruct (String.eqb (mem_name name idx) (iv_name n)) eqn:E; [|reflexivity]. apply String.eqb_eq in E.
+  exfalso. exact (mem_not_shape name idx "i_obj" (S n) eq_refl E).
+Qed.
+Lemma mem_not_rvar (r : row) (n : nat) (name : string) (idx : nat) : row_bases_ok r = true -> ~ In (mem_name name idx) (rvars r n).
+Proof.
+  intros Hb Hin. destruct (rvars_shape r n _ Hb Hin) as (b & i & E & _ & F & _). exact (mem_not_shape name idx b i F E).
+Qed.
+Lemma mem_not_cvar (c : column) (n : nat) (name : string) (idx : nat) : col_bases_ok c = true -> ~ In (mem_name name idx) (cvars c n).
+Proof.
+  intros Hb Hin. destruct (cvars_shape c n _ Hb Hin) as (b & i & E & _ & F & _). exact (mem_not_shape name idx b i F E).
+Qed.
+
+Definition col_declared (c : column) (n : nat) (st : state) : Prop :=
+  match c with ColScalar e => declared e n st | ColVec cr _ _ => exists t v, fget (vcv_name cr n) st = Some (t, v) end.
+Fixpoint row_declared (r : row) (n : nat) (st : state) : Prop :=
+  match r with [] => True | (_, c) :: t => col_declared c n st /\ row_declared t (n + col_size c) st end.
+
+Lemma col_declared_ext (c : column) (n : nat) (st st' : state) :
+  (forall x, In x (cvars c n) -> fget x st' = fget x st) -> col_declared c n st -> col_declared c n st'.
+Proof.
+  destruct c as [e|cr ps body]; cbn [col_declared cvars]; intros H D.
+  - eapply declared_ext; eauto.
+  - destruct D as (t & v & D). exists t, v. rewrite H; [exact D|left; reflexivity].
+Qed.
+Lemma row_declared_ext (r : row) : forall n st st',
+  (forall x, In x (rvars r n) -> fget x st' = fget x st) -> row_declared r n st -> row_declared r n st'.
+Proof.
+  induction r as [|[name c] t IH]; intros n st st' H D; cbn [row_declared rvars] in *; [exact I|].
+  destruct D as [Dc Dt]. split.
+  - eapply col_declared_ext; [|exact Dc]. intros x Hx. apply H, in_or_app. left; exact Hx.
+  - eapply IH; [|exact Dt]. intros x Hx. apply H, in_or_app. right; exact Hx.
+Qed.
+
+(* what is known about a column once its code has run *)
+Definition col_done (ev : event) (c : column) (mem : string) (n : nat) (st : state) (v : value) : Prop :=
+  match c with
+  | ColScalar e => bound e n st /\ (exists v0, eval ev st (tc e n) = ROk v0 /\ v = conv (ex_type e) v0) /\
+                   (exists old, mget mem st = Some (ex_type e, old))
+  | ColVec cr ps body => (exists l, v = VVec l) /\ mget mem st = Some (col_type c, v)
+  end.
+Lemma col_done_ext (ev : event) (c : column) (mem : string) (n : nat) (st st' : state) (v : value) :
+  (forall x, In x (cvars c n) -> fget x st' = fget x st) -> mget mem st' = mget mem st ->
+  col_done ev c mem n st v -> col_done ev c mem n st' v.
+Proof.
+  destruct c as [e|cr ps body]; cbn [col_done cvars]; intros Hf Hm D.
+  - destruct D as (B & (v0 & E & Ev) & (old & M)). split; [|split].
+    + intros x Hx. rewrite (Hf x Hx). apply B, Hx.
+    + exists v0. split; [|exact Ev]. rewrite (tc_ext ev e n st st' B Hf). exact E.
+    + exists old. rewrite Hm. exact M.
+  - destruct D as [Sh D]. split; [exact Sh|]. rewrite Hm. exact D.
+Qed.
+
+(* one column's code *)
+Lemma col_exec (brs : list branch) (ev : event) (idiom : string) (c : column) (mem : string) (n : nat) (st : state) :
+  col_bases_ok c = true -> col_declared c n st -> fget mem st = None ->
+  (forall b i, first_not_underscore b = true -> mem <> nm b i) ->
+  String.eqb mem (iv_name n) = false ->
+  (exists old, mget mem st = Some (col_type c, old) /\ match c with ColVec _ _ _ => old = VVec [] | _ => True end) ->
+  match dcol ev c with
+  | ROk v => exists st', exec_stmts brs ev (css idiom c mem n) st = ROk st' /\ rows st' = rows st /\
+                         (forall y, ~ In y (cvars c n) -> fget y st' = fget y st) /\
+                         (forall m, String.eqb m mem = false -> mget m st' = mget m st) /\
+                         col_done ev c mem n st' v
+  | RFault f => exec_stmts brs ev (css idiom c mem n) st = RFault f
+  | RStuck _ => True
+  end.
+Proof.
+  intros Hb D Hf Hshape Hiv (old & Hm & Hold).
+  destruct c as [e|cr ps body]; cbn [dcol css col_bases_ok col_declared cvars col_done col_type] in *.
+  - pose proof (de_phases ev e) as P. pose proof (te_exec brs ev idiom e n st Hb D) as T.
+    destruct (de ev e) as [v0|f|k]; cbn [rbind]; [| |exact I].
+    + destruct P as [Ps _]. rewrite Ps in T. destruct T as (st' & E & M & R & U & B & V).
+      exists st'. split; [exact E|]. split; [exact R|]. split; [exact U|]. split.
+      * intros m _. unfold mget. rewrite M. reflexivity.
+      * split; [exact B|]. split; [exists v0; split; [exact V|reflexivity]|]. exists old. unfold mget in *. rewrite M. exact Hm.
+    + rewrite P in T. exact T.
+  - destruct D as (tcv & v0 & Dcv). unfold vec_stmts. rewrite exec_stmts_cons. cbn [exec_stmt].
+    destruct (assoc_ss (c_ctype cr, c_bank cr) (ev_colls ev)) as [cval|]; [|reflexivity].
+    destruct (assign_upd (vcv_name cr n) cval st tcv v0 Dcv) as (Has & _ & Hcv1 & Hoth & Mem1 & R1).
+    rewrite Has. cbn [rbind]. rewrite exec_one. unfold tvec_loop. rewrite exec_for.
+    change (eval ev (upd (vcv_name cr n) cval st) (CDeref (CVar (vcv_name cr n))))
+      with (rbind (eval ev (upd (vcv_name cr n) cval st) (CVar (vcv_name cr n)))
+                  (fun x => match x with VNull => RFault FNullDeref | _ => ROk x end)).
+    rewrite eval_var, (lookup_fget _ _ _ Hcv1).
+    set (st1 := upd (vcv_name cr n) cval st) in *.
+    assert (Hf1 : fget mem st1 = None).
+    { unfold base_ok in Hb. apply andb_prop in Hb as [_ F].
+      rewrite Hoth; [exact Hf|]. destruct (String.eqb mem (vcv_name cr n)) eqn:E; [|reflexivity].
+      apply String.eqb_eq in E. exfalso. exact (Hshape _ _ F E). }
+    assert (Hm1 : mget mem st1 = Some (vec_type (pa_type body), VVec [])).
+    { unfold st1. rewrite mget_upd. subst old. exact Hm. }
+    destruct cval; cbn [rbind]; try exact I; try reflexivity.
+    destruct (vec_loop ev (pa_type body) body ps l []) as [vs|f|k] eqn:Ev; cbn [rbind]; [| |exact I].
+    + rewrite (loop_push brs ev _ _ mem body ps l st1 [] Hf1 Hiv Hm1); rewrite Ev; [|exact I].
+      destruct (assign_updm mem (VVec vs) st1 _ _ Hf1 Hm1) as (_ & _ & G & O & Fr & Rw).
+      eexists. split; [reflexivity|]. split; [congruence|]. split; [|split].
+      * intros y Hy. rewrite fget_updm. apply Hoth. destruct (String.eqb y (vcv_name cr n)) eqn:E; [|reflexivity].
+        apply String.eqb_eq in E. exfalso. apply Hy. left; auto.
+      * intros m Hmne. rewrite (O m Hmne). apply mget_upd.
+      * split; [eexists; reflexivity|exact G].
+    + rewrite (loop_push brs ev _ _ mem body ps l st1 [] Hf1 Hiv Hm1); rewrite Ev; [reflexivity|exact I].
+Qed.
+
+(* ---------- all columns ---------- *)
+Fixpoint row_done (ev : event) (r : row) (nf k n : nat) (st : state) (vs : list value) : Prop :=
+  match r, vs with
+  | [], [] => True
+  | (name, c) :: t, v :: vs' => col_done ev c (mem_name name (nf + k)) n st v /\ row_done ev t nf (S k) (n + col_size c) st vs'
+  | _, _ => False
+  end.
+Lemma row_done_ext (ev : event) (r : row) : forall nf k n st st' vs,
+  (forall x, In x (rvars r n) -> fget x st' = fget x st) -> (forall m, In m (rmems r nf k) -> mget m st' = mget m st) ->
+  row_done ev r nf k n st vs -> row_done ev r nf k n st' vs.
+Proof.
+  induction r as [|[name c] t IH]; intros nf k n st st' vs Hf Hm D; destruct vs as [|v vs']; cbn [row_done rvars rmems] in *; try exact D.
+  destruct D as [Dc Dt]. split.
+  - eapply col_done_ext; [| |exact Dc]; [intros x Hx; apply Hf, in_or_app; left; exact Hx|apply Hm; left; reflexivity].
+  - eapply IH; [| |exact Dt]; [intros x Hx; apply Hf, in_or_app; right; exact Hx|intros m Hx; apply Hm; right; exact Hx].
+Qed.
+
+Fixpoint mems_init (r : row) (nf k : nat) (st : state) : Prop :=
+  match r with
+  | [] => True
+  | (name, c) :: t =>
+      (exists old, mget (mem_name name (nf + k)) st = Some (col_type c, old) /\
+                   match c with ColVec _ _ _ => old = VVec [] | _ => True end) /\ mems_init t nf (S k) st
+  end.
+Lemma mems_init_ext (r : row) : forall nf k st st',
+  (forall m, In m (rmems r nf k) -> mget m st' = mget m st) -> mems_init r nf k st -> mems_init r nf k st'.
+Proof.
+  induction r as [|[name c] t IH]; intros nf k st st' H D; cbn [mems_init rmems] in *; [exact I|].
+  destruct D as [(old & M & O) Dt]. split.
+  - exists old. rewrite H; [split; assumption|left; reflexivity].
+  - eapply IH; [|exact Dt]. intros m Hm. apply H. right; exact Hm.
+Qed.
+
+Lemma mem_name_shape (name : string) (idx : nat) : forall b i, first_not_underscore b = true -> mem_name name idx <> nm b i.
+Proof. intros b i F. apply mem_not_shape, F. Qed.
+
+Lemma row_exec (brs : list branch) (ev : event) (idiom : string) (r : row) : forall (nf k n : nat) (st : state),
+  row_bases_ok r = true -> row_declared r n st -> mems_init r nf k st ->
+  (forall m, In m (rmems r nf k) -> fget m st = None) -> NoDup (rmems r nf k) ->
+  match drow ev r with
+  | ROk vs => exists st', exec_stmts brs ev (rss idiom r nf k n) st = ROk st' /\ rows st' = rows st /\
+                          (forall y, ~ In y (rvars r n) -> fget y st' = fget y st) /\
+                          (forall m, ~ In m (rmems r nf k) -> mget m st' = mget m st) /\
+                          row_done ev r nf k n st' vs
+  | RFault f => exec_stmts brs ev (rss idiom r nf k n) st = RFault f
+  | RStuck _ => True
+  end.
+Proof.
+  induction r as [|[name c] t IH]; intros nf k n st Hb D Mi Sep Nd; cbn [drow rss row_bases_ok row_declared mems_init rmems rvars] in *.
+  - exists st. repeat split; auto.
+  - apply andb_prop in Hb as [Hc Ht]. destruct D as [Dc Dt]. destruct Mi as [Mc Mt].
+    set (mem := mem_name name (nf + k)) in *.
+    inversion Nd as [|? ? Nin Nd']; subst.
+    pose proof (col_exec brs ev idiom c mem n st Hc Dc (Sep mem (or_introl eq_refl)) (mem_name_shape name (nf + k)) (mem_neq_iv name (nf + k) n) Mc) as C.
+    rewrite exec_stmts_app.
+    destruct (dcol ev c) as [v|f|kk]; cbn [rbind]; [|rewrite C; reflexivity|exact I].
+    destruct C as (st1 & E1 & R1 & U1 & Mo1 & Dn1). rewrite E1. cbn [rbind].
+    assert (Dt1 : row_declared t (n + col_size c) st1).
+    { eapply row_declared_ext; [|exact Dt]. intros x Hx. apply U1. intro Hxc. exact (cvars_rvars_disjoint c t n x Hc Ht Hxc Hx). }
+    assert (Mem_ne : forall m, In m (rmems t nf (S k)) -> String.eqb m mem = false).
+    { intros m Hm. destruct (String.eqb m mem) eqn:E; [|reflexivity]. apply String.eqb_eq in E. subst m. contradiction. }
+    assert (Mt1 : mems_init t nf (S k) st1).
+    { eapply mems_init_ext; [|exact Mt]. intros m Hm. apply Mo1, Mem_ne, Hm. }
+    assert (Sep1 : forall m, In m (rmems t nf (S k)) -> fget m st1 = None).
+    { intros m Hm. rewrite U1; [apply Sep; right; exact Hm|].
+      clear - Hm Hc. revert Hm. generalize (S k). induction t as [|[nm' c'] t' IHt]; intros k' Hm; cbn [rmems] in Hm; [destruct Hm|].
+      destruct Hm as [<-|Hm]; [apply mem_not_cvar, Hc|exact (IHt _ Hm)]. }
+    specialize (IH nf (S k) (n + col_size c) st1 Ht Dt1 Mt1 Sep1 Nd').
+    destruct (drow ev t) as [vs|f|kk]; cbn [rbind]; [|exact IH|exact I].
+    destruct IH as (st2 & E2 & R2 & U2 & Mo2 & Dn2).
+    exists st2. split; [exact E2|]. split; [congruence|]. split; [|split; [|split]].
+    + intros y Hy. rewrite U2, U1; [reflexivity| |]; intro H; apply Hy, in_or_app; auto.
+    + intros m Hm. rewrite Mo2; [apply Mo1|]; [|intro H; apply Hm; right; exact H].
+      destruct (String.eqb m mem) eqn:E; [|reflexivity]. apply String.eqb_eq in E. exfalso. apply Hm. left; auto.
+    + eapply col_done_ext; [| |exact Dn1].
+      * intros x Hx. apply U2. intro Hxt. exact (cvars_rvars_disjoint c t n x Hc Ht Hx Hxt).
+      * apply Mo2. exact Nin.
+    + exact Dn2.
+Qed.
+
+(* ---------- storing the scalar columns, Fill, clearing the vector columns ---------- *)
+Fixpoint row_filled (r : row) (nf k : nat) (st : state) (vs : list value) : Prop :=
+  match r, vs with
+  | [], [] => True
+  | (name, c) :: t, v :: vs' =>
+      mget (mem_name name (nf + k)) st = Some (col_type c, v) /\
+      match c with ColVec _ _ _ => exists l, v = VVec l | _ => True end /\ row_filled t nf (S k) st vs'
+  | _, _ => False
+  end.
+Lemma row_filled_ext (r : row) : forall nf k st st' vs,
+  (forall m, In m (rmems r nf k) -> mget m st' = mget m st) -> row_filled r nf k st vs -> row_filled r nf k st' vs.
+Proof.
+  induction r as [|[name c] t IH]; intros nf k st st' vs H D; destruct vs as [|v vs']; cbn [row_filled rmems] in *; try exact D.
+  destruct D as (M & Sh & Dt). split; [rewrite H; [exact M|left; reflexivity]|]. split; [exact Sh|].
+  eapply IH; [|exact Dt]. intros m Hm. apply H. right; exact Hm.
+Qed.
+
+Lemma mem_in_neq (t : row) (nf k : nat) (mem : string) : ~ In mem (rmems t nf k) ->
+  forall m, In m (rmems t nf k) -> String.eqb m mem = false.
+Proof.
+  intros Nin m Hm. destruct (String.eqb m mem) eqn:E; [|reflexivity]. apply String.eqb_eq in E. subst m. contradiction.
+Qed.
+
+Lemma sets_exec (brs : list branch) (ev : event) (r : row) : forall (nf k n : nat) (st : state) (vs : list value),
+  row_done ev r nf k n st vs -> (forall m, In m (rmems r nf k) -> fget m st = None) -> NoDup (rmems r nf k) ->
+  exists st', exec_stmts brs ev (rsets r nf k n) st = ROk st' /\ frames st' = frames st /\ rows st' = rows st /\
+              (forall m, ~ In m (rmems r nf k) -> mget m st' = mget m st) /\ row_filled r nf k st' vs.
+Proof.
+  induction r as [|[name c] t IH]; intros nf k n st vs D Sep Nd; destruct vs as [|v vs']; cbn [row_done rsets rmems row_filled] in *; try destruct D.
+  - exists st. repeat split; auto.
+  - set (mem := mem_name name (nf + k)) in *. inversion Nd as [|? ? Nin Nd']; subst.
+    rename H into Dc. rename H0 into Dt.
+    destruct c as [e|cr ps body]; cbn [col_done col_size] in *.
+    + destruct Dc as (B & (v0 & E & Ev) & (old & M)).
+      destruct (assign_updm mem (conv (ex_type e) v0) st _ _ (Sep mem (or_introl eq_refl)) M) as (Ha & Hlk & G & O & Fr & Rw).
+      rewrite exec_stmts_cons, exec_set, E. cbn [rbind]. rewrite Hlk, Ha. cbn [rbind].
+      set (st1 := updm mem (conv (ex_type e) v0) st) in *.
+      assert (Dt1 : row_done ev t nf (S k) (n + ex_size e) st1 vs').
+      { eapply row_done_ext; [| |exact Dt]; [intros x _; apply fget_updm|intros m Hm; apply O, (mem_in_neq t nf (S k) mem Nin m Hm)]. }
+      destruct (IH nf (S k) (n + ex_size e) st1 vs' Dt1) as (st2 & E2 & F2 & R2 & Mo2 & Fi2).
+      { intros m Hm. unfold st1. rewrite fget_updm. apply Sep. right; exact Hm. }
+      { exact Nd'. }
+      exists st2. split; [exact E2|]. split; [congruence|]. split; [congruence|]. split; [|split; [|split]].
+      * intros m Hm. rewrite Mo2; [apply O|]; [|intro H; apply Hm; right; exact H].
+        destruct (String.eqb m mem) eqn:Em; [|reflexivity]. apply String.eqb_eq in Em. exfalso. apply Hm. left; auto.
+      * rewrite (Mo2 mem Nin). subst v. exact G.
+      * exact I.
+      * exact Fi2.
+    + destruct Dc as [Sh M].
+      destruct (IH nf (S k) (n + 2) st vs' Dt) as (st2 & E2 & F2 & R2 & Mo2 & Fi2).
+      { intros m Hm. apply Sep. right; exact Hm. }
+      { exact Nd'. }
+      exists st2. split; [exact E2|]. split; [exact F2|]. split; [exact R2|]. split; [|split; [|split]].
+      * intros m Hm. apply Mo2. intro H. apply Hm. right; exact H.
+      * rewrite (Mo2 mem Nin). exact M.
+      * exact Sh.
+      * exact Fi2.
+Qed.
+
+Definition mk_branch (m : (string * column) * member) : branch := {| br_name := fst (fst m); br_var := m_name (snd m) |}.
+Lemma fill_row_filled (r : row) : forall nf k st vs,
+  row_filled r nf k st vs -> fill_row (map mk_branch (combine r (row_members r nf k))) st = vs.
+Proof.
+  induction r as [|[name c] t IH]; intros nf k st vs D; destruct vs as [|v vs']; cbn [row_filled row_members combine map fill_row] in *; try destruct D; [reflexivity|].
+  destruct H0 as [_ Dt]. unfold mget in H. cbn [mk_branch br_var snd m_name]. rewrite H. f_equal. apply (IH nf (S k) st vs' Dt).
+Qed.
+
+Fixpoint members_after (r : row) (nf k : nat) (st : state) (vs : list value) : Prop :=
+  match r, vs with
+  | [], [] => True
+  | (name, c) :: t, v :: vs' =>
+      mget (mem_name name (nf + k)) st = Some (col_type c, match c with ColVec _ _ _ => VVec [] | _ => v end) /\
+      members_after t nf (S k) st vs'
+  | _, _ => False
+  end.
+Lemma members_after_ext (r : row) : forall nf k st st' vs,
+  (forall m, In m (rmems r nf k) -> mget m st' = mget m st) -> members_after r nf k st vs -> members_after r nf k st' vs.
+Proof.
+  induction r as [|[name c] t IH]; intros nf k st st' vs H D; destruct vs as [|v vs']; cbn [members_after rmems] in *; try exact D.
+  destruct D as (M & Dt). split; [rewrite H; [exact M|left; reflexivity]|].
+  eapply IH; [|exact Dt]. intros m Hm. apply H. right; exact Hm.
+Qed.
+
+Lemma clears_exec (brs : list branch) (ev : event) (r : row) : forall (nf k : nat) (st : state) (vs : list value),
+  row_filled r nf k st vs -> (forall m, In m (rmems r nf k) -> fget m st = None) -> NoDup (rmems r nf k) ->
+  exists st', exec_stmts brs ev (trow_clears r nf k) st = ROk st' /\ frames st' = frames st /\ rows st' = rows st /\
+              (forall m, ~ In m (rmems r nf k) -> mget m st' = mget m st) /\ members_after r nf k st' vs.
+Proof.
+  induction r as [|[name c] t IH]; intros nf k st vs D Sep Nd; destruct vs as [|v vs']; cbn [row_filled trow_clears rmems members_after] in *; try destruct D.
+  - exists st. repeat split; auto.
+  - set (mem := mem_name name (nf + k)) in *. inversion Nd as [|? ? Nin Nd']; subst.
+    destruct H0 as [Sh Dt]. rename H into M.
+    destruct c as [e|cr ps body].
+    + destruct (IH nf (S k) st vs' Dt) as (st2 & E2 & F2 & R2 & Mo2 & A2); [intros m Hm; apply Sep; right; exact Hm|exact Nd'|].
+      exists st2. split; [exact E2|]. split; [exact F2|]. split; [exact R2|]. split; [|split].
+      * intros m Hm. apply Mo2. intro H. apply Hm. right; exact H.
+      * rewrite (Mo2 mem Nin). exact M.
+      * exact A2.
+    + destruct Sh as [l Sh]. subst v.
+      destruct (assign_updm mem (VVec []) st _ _ (Sep mem (or_introl eq_refl)) M) as (Ha & Hlk & G & O & Fr & Rw).
+      rewrite exec_stmts_cons. cbn [exec_stmt]. rewrite Hlk, Ha. cbn [rbind].
+      set (st1 := updm mem (VVec []) st) in *.
+      destruct (IH nf (S k) st1 vs') as (st2 & E2 & F2 & R2 & Mo2 & A2).
+      { eapply row_filled_ext; [|exact Dt]. intros m Hm. apply O, (mem_in_neq t nf (S k) mem Nin m Hm). }
+      { intros m Hm. unfold st1. rewrite fget_updm. apply Sep. right; exact Hm. }
+      { exact Nd'. }
+      exists st2. split; [exact E2|]. split; [congruence|]. split; [congruence|]. split; [|split].
+      * intros m Hm. rewrite Mo2; [apply O|]; [|intro H; apply Hm; right; exact H].
+        destruct (String.eqb m mem) eqn:Em; [|reflexivity]. apply String.eqb_eq in Em. exfalso. apply Hm. left; auto.
+      * rewrite (Mo2 mem Nin). exact G.
+      * exact A2.
+Qed.
+
+(* ---------- declarations of a row; the whole program ---------- *)
+Lemma row_decls (ev : event) (r : row) : forall (n : nat) (st : state),
+  row_bases_ok r = true ->
+  (forall x, In x (rvars r n) -> fget x st = None) ->
+  exists st', run_decls ev (rds r n) st = ROk st' /\ row_declared r n st' /\
+              members st' = members st /\ rows st' = rows st /\
+              (forall y, ~ In y (rvars r n) -> fget y st' = fget y st).
+Proof.
+  induction r as [|[name c] t IH]; intros n st Hb Hf; cbn [rds rvars row_declared row_bases_ok] in *.
+  - exists st. cbn. repeat split; auto.
+  - apply andb_prop in Hb as [Hc Ht]. rewrite run_decls_app.
+    assert (C : exists st1, run_decls ev (cds c n) st = ROk st1 /\ col_declared c n st1 /\ members st1 = members st /\
+                            rows st1 = rows st /\ (forall y, ~ In y (cvars c n) -> fget y st1 = fget y st)).
+    { destruct c as [e|cr ps body]; cbn [cds col_declared cvars col_bases_ok] in *.
+      - apply decls_declared; [exact Hc|]. intros x Hx. apply Hf, in_or_app. left; exact Hx.
+      - cbn [run_decls d_init d_name d_type].
+        destruct (declare_spec (vcv_name cr n) (c_ctype cr) (default_value (c_ctype cr)) st) as (G & O & M & R).
+        { apply Hf. left; reflexivity. }
+        eexists. split; [reflexivity|]. split; [eauto|]. split; [exact M|]. split; [exact R|].
+        intros y Hy. apply O. destruct (String.eqb y (vcv_name cr n)) eqn:E; [|reflexivity].
+        apply String.eqb_eq in E. exfalso. apply Hy. left; auto. }
+    destruct C as (st1 & E1 & D1 & M1 & R1 & U1). rewrite E1. cbn [rbind].
+    destruct (IH (n + col_size c) st1 Ht) as (st2 & E2 & D2 & M2 & R2 & U2).
+    { intros x Hx. rewrite U1; [apply Hf, in_or_app; auto|]. intro Hxc. exact (cvars_rvars_disjoint c t n x Hc Ht Hxc Hx). }
+    exists st2. split; [exact E2|]. split; [split|].
+    + eapply col_declared_ext; [|exact D1]. intros x Hx. apply U2. intro Hxt. exact (cvars_rvars_disjoint c t n x Hc Ht Hx Hxt).
+    + exact D2.
+    + split; [congruence|]. split; [congruence|]. intros y Hy. rewrite U2, U1; [reflexivity| |]; intro H; apply Hy, in_or_app; auto.
+Qed.
+
+(* the member state the analysis object must be in when the event starts: every column member is declared with
+   the column's type, vector members are empty (that they are empty again afterwards is part of the conclusion) *)
+Fixpoint members_init (r : row) (nf k : nat) (ms : frame) : Prop :=
+  match r with
+  | [] => True
+  | (name, c) :: t =>
+      (exists old, frame_get (mem_name name (nf + k)) ms = Some (col_type c, old) /\
+                   match c with ColVec _ _ _ => old = VVec [] | _ => True end) /\ members_init t nf (S k) ms
+  end.
+Fixpoint members_final (r : row) (nf k : nat) (ms : frame) (vs : list value) : Prop :=
+  match r, vs with
+  | [], [] => True
+  | (name, c) :: t, v :: vs' =>
+      frame_get (mem_name name (nf + k)) ms = Some (col_type c, match c with ColVec _ _ _ => VVec [] | _ => v end) /\
+      members_final t nf (S k) ms vs'
+  | _, _ => False
+  end.
+
+Lemma rmems_shape (r : row) : forall nf k m, In m (rmems r nf k) -> exists name idx, m = mem_name name idx.
+Proof.
+  induction r as [|[name c] t IH]; intros nf k m Hm; cbn [rmems] in Hm; [destruct Hm|].
+  destruct Hm as [<-|Hm]; [eauto|exact (IH _ _ _ Hm)].
+Qed.
+Lemma mems_init_of (r : row) : forall nf k ms st, members st = ms -> members_init r nf k ms -> mems_init r nf k st.
+Proof.
+  induction r as [|[name c] t IH]; intros nf k ms st E D; cbn [members_init mems_init] in *; [exact I|].
+  destruct D as [(old & M & O) Dt]. split; [exists old; unfold mget; rewrite E; split; assumption|]. eapply IH; eauto.
+Qed.
+Lemma members_after_final (r : row) : forall nf k st vs, members_after r nf k st vs -> members_final r nf k (members st) vs.
+Proof.
+  induction r as [|[name c] t IH]; intros nf k st vs D; destruct vs as [|v vs']; cbn [members_after members_final] in *; try exact D.
+  destruct D as [M Dt]. split; [exact M|]. apply IH, Dt.
+Qed.
+
+Theorem frag_row_correct (bk : backend) (r : row) (n0 : nat) (ev : event) (ms : frame) :
+  let nf := n0 + row_size r in
+  row_bases_ok r = true -> NoDup (rmems r nf 0) -> members_init r nf 0 ms ->
+  match drow ev r with
+  | ROk vs => exists ms', run_event (prog_row bk r n0) ms ev = ROk ([vs], ms') /\ members_final r nf 0 ms' vs
+  | RFault f => run_event (prog_row bk r n0) ms ev = RFault f
+  | RStuck _ => True
+  end.
+Proof.
+  intros nf Hb Nd Mi. unfold prog_row. fold nf. rewrite trow_split, trow_sets_split.
+  unfold run_event. cbn [p_body p_branches].
+  change (map (fun m : string * column * member => {| br_name := fst (fst m); br_var := m_name (snd m) |}) (combine r (row_members r nf 0)))
+    with (map mk_branch (combine r (row_members r nf 0))).
+  set (brs := map mk_branch (combine r (row_members r nf 0))).
+  rewrite exec_block_eq.
+  set (st0 := enter [] {| frames := []; members := ms; rows := [] |}).
+  destruct (row_decls ev r n0 st0 Hb) as (st1 & E1 & D1 & M1 & R1 & U1); [intros x _; reflexivity|].
+  rewrite E1. cbn [rbind]. rewrite exec_stmts_app.
+  assert (NotVar : forall m, In m (rmems r nf 0) -> ~ In m (rvars r n0)).
+  { intros m Hm. destruct (rmems_shape r nf 0 m Hm) as (name & idx & ->). apply mem_not_rvar, Hb. }
+  assert (Sep1 : forall m, In m (rmems r nf 0) -> fget m st1 = None).
+  { intros m Hm. rewrite (U1 m (NotVar m Hm)). reflexivity. }
+  assert (Mi1 : mems_init r nf 0 st1) by (eapply mems_init_of; [exact M1|exact Mi]).
+  pose proof (row_exec brs ev (b_idiom bk) r nf 0 n0 st1 Hb D1 Mi1 Sep1 Nd) as RE.
+  destruct (drow ev r) as [vs|f|k]; [| rewrite RE; reflexivity | exact I].
+  destruct RE as (st2 & E2 & R2 & U2 & Mo2 & Dn2). rewrite E2. cbn [rbind]. rewrite exec_stmts_app.
+  assert (Sep2 : forall m, In m (rmems r nf 0) -> fget m st2 = None).
+  { intros m Hm. rewrite (U2 m (NotVar m Hm)). apply Sep1, Hm. }
+  destruct (sets_exec brs ev r nf 0 n0 st2 vs Dn2 Sep2 Nd) as (st3 & E3 & F3 & R3 & Mo3 & Fi3).
+  rewrite E3. cbn [rbind]. rewrite exec_stmts_cons. cbn [exec_stmt rbind].
+  replace (fill_row brs st3) with vs by (symmetry; apply (fill_row_filled r nf 0 st3 vs Fi3)).
+  set (st4 := {| frames := frames st3; members := members st3; rows := rows st3 ++ [vs] |}).
+  assert (Fi4 : row_filled r nf 0 st4 vs) by (eapply row_filled_ext; [|exact Fi3]; intros; reflexivity).
+  assert (Sep4 : forall m, In m (rmems r nf 0) -> fget m st4 = None).
+  { intros m Hm. unfold fget, st4. cbn [frames]. rewrite F3. apply Sep2, Hm. }
+  destruct (clears_exec brs ev r nf 0 st4 vs Fi4 Sep4 Nd) as (st5 & E5 & F5 & R5 & Mo5 & A5).
+  rewrite E5. cbn [rbind pop_frame rows members].
+  exists (members st5). split.
+  - rewrite R5. unfold st4. cbn [rows]. rewrite R3, R2, R1. reflexivity.
+  - apply members_after_final, A5.
 Qed.
